@@ -422,7 +422,7 @@ func c18Check(c c18Case, st *c18Stats) error {
 }
 
 func c18RacePath() string {
-	return filepath.Join(rig.Dir(), "replays", "C18", fmt.Sprintf("%s-seed%d-race.json", rig.Tier(), rig.Seed()))
+	return filepath.Join(rig.Dir(), "replays", "C18", fmt.Sprintf("%s-seed%d-shard%d-race.json", rig.Tier(), rig.Seed(), rig.Shard()))
 }
 
 func init() {
@@ -453,7 +453,9 @@ func TestC18(t *testing.T) {
 			ev := r.Ev
 			kinds := []string{"system", "sysmap", "pri", "alt", "prifork", "altfork", "emitter", "emclones", "rom", "pure"}
 			var overlapped int64
-			r.Rapid("rounds", rig.Pick(2, 30), func(t *rapid.T) {
+			// every shard is a process of its own: state that is initialised lazily on first use is cold in the first round of
+			// each of them, so the rounds are spread over many processes (quick 3 x 1, thorough 16 x 2)
+			r.Rapid("rounds", rig.Pick(1, 2), func(t *rapid.T) {
 				// every kind at least twice per round (shared state is only exposed when two instances of the
 				// same code run together), plus a drawn number of extra workloads
 				// fixed part of a round: every base kind twice, the two fork kinds once (they share their code with pri/alt)
